@@ -1,7 +1,7 @@
 SPECIFICATION TraceSpec
 CONSTANTS
   NProcs = 5
-  Keys = {1, 2, 3, 4}
+  MaxKey = 40
 CONSTRAINT Mark
 POSTCONDITION Accepted
 CHECK_DEADLOCK FALSE
